@@ -34,7 +34,7 @@ func init() {
 			return 5760
 		},
 		Run:        runC17,
-		Required:   []string{"runs.cross_process_stuttered", "runs.in_process", "runs.same_input_objects", "runs.copied_options", "runs.cross_process", "scenarios.random_population", "scenarios.spawned", "epochs.compared"},
+		Required:   []string{"runs.cross_process_stuttered", "runs.in_process", "runs.same_input_objects", "runs.copied_options", "runs.cross_process", "scenarios.random_population", "scenarios.spawned", "scenarios.modular_start_genome_with_crossover", "epochs.compared"},
 		TimeoutSec: func(tier string) int { return 7200 },
 	})
 }
@@ -74,6 +74,28 @@ func c17Scenario(seed int64, idx int) (*EvoScenario, int64) {
 		if sc.Opts.BabiesStolen > 40 {
 			sc.Opts.BabiesStolen = 40
 		}
+	}
+	if idx%16 == 5 {
+		// a modular start genome (the shipped one, rewired), crossovers included: a handful of epochs only, because every mating
+		// hands the modules of both parents to the child and their number doubles
+		mg, err := loadShippedGenome(modularGenomeFile)
+		if err != nil {
+			panic("harness: " + err.Error())
+		}
+		ms := snapGenome(mg)
+		modularVariants(g, ms)
+		for i := range ms.Genes {
+			ms.Genes[i].W = fbits(g.NormFloat64())
+		}
+		sc.Ctor, sc.Start, sc.StartSrc = ctorSpawn, buildFromSnap(ms), "file:"+modularGenomeFile+" (modular, rewired)"
+		sc.Epochs = 4 + g.Intn(3)
+		if sc.Opts.PopSize > 40 {
+			sc.Opts.PopSize = 40
+		}
+		if sc.Opts.MutateOnlyProb > 0.5 {
+			sc.Opts.MutateOnlyProb = 0.3
+		}
+		sc.modular = true
 	}
 	return sc, int64(splitmix(uint64(cs)+77) >> 1)
 }
@@ -245,6 +267,9 @@ func runC17(c *Ctx, idx int) {
 		again := c17Execute(sc, libSeed)
 		neat.LogLevel = lvl
 		c.Count("runs.same_input_objects", 1)
+		if sc.modular {
+			c.Count("scenarios.modular_start_genome_with_crossover", 1)
+		}
 		if again.errText != first.errText {
 			c.Violate("in-process/error", detail(), "the first run ended with %q, the run on the same input objects with %q", first.errText, again.errText)
 			return
